@@ -52,6 +52,7 @@ func cmdRun(args []string) {
 	prof := fs.String("cpuprofile", "", "")
 	sticky := fs.Bool("sticky", false, "one iteration order per map object")
 	mapOrder := fs.Int("maporder", 3, "")
+	sched := fs.Bool("sched", false, "explore interleavings")
 	fs.Parse(args)
 	if *prof != "" {
 		f, _ := os.Create(*prof)
@@ -71,7 +72,7 @@ func cmdRun(args []string) {
 		}
 	}
 	cfg := sym.RunConfig{PkgPath: pr.ModPath + "/" + *pkg, Harness: *name, Params: ps, MaxSteps: *steps, MaxDepth: 400, MaxMake: 64,
-		Workers: *workers, SolverBin: *solver, TimeoutMs: 20000, MapOrderMax: *mapOrder, MapOrderSticky: *sticky}
+		Workers: *workers, SolverBin: *solver, TimeoutMs: 20000, MapOrderMax: *mapOrder, MapOrderSticky: *sticky, SchedChoice: *sched}
 	res := pr.Run(cfg)
 	fmt.Println(res.Summary())
 	for _, v := range res.Violations {
